@@ -12,8 +12,9 @@ EXPLANATION = (
     "(walkdir pops one more directory per extra call); (target) the cancellation handed to a verdict wraps the iterator "
     "whose feed() produced the entry, with exactly one feed() per call.  Decided by evaluating the THIR of each function "
     "on every member of {filtrate-ok, filtrate-err, node residue, tree residue, end} x {no verdict, file, tree}; the "
-    "behaviour on real directory trees is not executed.")
-RULES = "C13.skip (WHO+GUARD), C13.isdir (EFFECT), C13.forward (SIBLING), C13.pair (EFFECT), C13.target (PROV+WHO)"
+    "behaviour on real directory trees is not executed.  "
+    "Also run here: the verdict table of `not` (C03.verdict), the decision cells of the glob walker - a directory whose own component fails the program of its depth is discarded as a tree, every other non-matching entry as a file (C02.prune) - and that every combinator yields the filtrate of its own feed (C16.next).")
+RULES = "C13.skip (WHO+GUARD), C13.isdir (EFFECT), C13.forward (SIBLING), C13.pair (EFFECT), C13.target (PROV+WHO), C03.verdict (TABLE), C02.prune (GUARD: decision cells of the glob walker), C16.next"
 
 SKIP = "walkdir::IntoIter::skip_current_dir"
 WALKTREE_CANCEL = "<walk::WalkTree as filter::CancelWalk>::cancel_walk_tree"
@@ -33,6 +34,12 @@ def run(ctx):
     # a directory that matches an exhaustive negation is discarded as a tree (and so not read): the verdict table of `not`
     from . import c03
     c03.rule_verdict(F, R)
+    # a directory that the glob's component program of its own depth rejects is discarded as a tree, any other
+    # non-matching entry as a file: the decision cells of the glob walker (C02.prune)
+    from . import c02
+    c02.rule_walker(F, R)
+    from . import c16
+    c16.rule_next(F, R)      # what a combinator yields is the filtrate of its own feed
     R.count("functions_evaluated", 0)
 
 
